@@ -155,14 +155,26 @@ func C13(c *Ctx) {
 		c.Bound("edit level: %d well-formed files (%d-%d bytes); at every position: the byte replaced by any ASCII byte, any ASCII byte inserted, the byte deleted, the file cut there, the file cut there and any ASCII byte appended; loop bound 4000 per loop", len(files), minLen(files), maxLen(files))
 	}
 	c.Outside = append(c.Outside, "edits of more than one byte and edits of other files than the "+strconv.Itoa(len(files))+" of the harness")
+	accepted := map[int]bool{}
 	for f := range files {
 		job := SymJob{Name: fmt.Sprintf("file %d is well-formed", f), Eng: eng, PkgPath: RepoModule + "/Parser", Entry: "VerifFileParses",
 			Args: []int{f}, Replay: ReplaySpec{Kind: "repo", PkgDirs: []string{"Parser"}, Extra: extra}}
-		c.RunSym(job)
+		if rep := c.RunSym(job); rep != nil && rep.Covers["file parses"] > 0 {
+			accepted[f] = true
+		} else {
+			c.Outside = append(c.Outside, fmt.Sprintf("edits of file %d of the edit harness: this tree does not read the file as well-formed (its edits would only explore diagnostics)", f))
+		}
+	}
+	if len(accepted) == 0 {
+		c.Inconclusive("no file of the edit harness is read as well-formed by this tree")
+		return
 	}
 	modeName := []string{"replace", "cut+append", "insert", "delete", "cut", "replace two", "cut+append two"}
 	for _, e := range edits {
 		e := e
+		if !accepted[e.file] {
+			continue
+		}
 		job := SymJob{Name: fmt.Sprintf("edit file=%d %s", e.file, modeName[e.mode]), Eng: eng, PkgPath: RepoModule + "/Parser", Entry: "VerifEdit",
 			Args: []int{e.file, e.mode}, Replay: ReplaySpec{Kind: "repo", PkgDirs: []string{"Parser"}, Extra: extra}, unwindIsFinding: true}
 		rep := c.RunSym(job)
